@@ -236,3 +236,42 @@ class UpdateWorkingBatteries:
         recalculation_iff_changed="(self._update_event.n_set > old(self._update_event.n_set))"
                                   " == (self._working_batteries != old(self._working_batteries))",
     )
+
+
+# ------------------------------------------------------------------ which working set a new aggregator starts with
+BP = "frequenz.sdk.timeseries.battery_pool._battery_pool"
+from pyvc.spec import Const, Delta   # noqa: E402  pylint: disable=wrong-import-position
+
+SOC_KEY = "SendOnUpdate_SoCCalculator"
+CAP_KEY = "SendOnUpdate_CapacityCalculator"
+FactoryT = ExtObj("SendOnUpdate factory", methods={"__call__": dict(returns="aggregator", effects={
+    "n_made": "self.n_made + 1", "given_working": "kwargs['working_batteries']", "given_calc": "kwargs['metric_calculator']"})},
+    n_made=Int, given_working=SetOf(Int), given_calc=OpaqueT("calculator"))
+RefStoreT = Obj("frequenz.sdk.timeseries.battery_pool._battery_pool_reference_store:BatteryPoolReferenceStore",
+                _batteries=SetOf(Int, frozen=True), _working_batteries=SetOf(Int), _min_update_interval=Delta,
+                _active_methods=DictOpt({SOC_KEY: OpaqueT("aggregator"), CAP_KEY: OpaqueT("aggregator")}))
+PoolT = Obj(f"{BP}:BatteryPool", _pool_ref_store=RefStoreT)
+
+
+def pool_metric_contract(prop, key, calc_cls):
+    @contract(f"{BP}:BatteryPool.{prop}")
+    class _C:
+        """A new aggregator starts from the pool's CURRENT set of working batteries (the one kept up to date from
+        the status channel), not from all batteries of the pool; an existing aggregator is reused."""
+        self_shape = PoolT
+        ghost = dict(factory=FactoryT, aggregator=OpaqueT("aggregator"),
+                     calculator=ExtObj("MetricCalculator", batteries=SetOf(Int, frozen=True)))
+        externals = {f"{METHODS}:SendOnUpdate": "call factory", f"{MC}:{calc_cls}": "calculator",
+                     f"{METHODS}:SendOnUpdate.name": "'SendOnUpdate'", f"{MC}:{calc_cls}.name": f"'{calc_cls}'"}
+        modifies = ["self._pool_ref_store._active_methods", "factory"]
+        requires = dict(fresh="factory.n_made == 0")
+        ensures = dict(
+            created_once_when_missing="factory.n_made == (0 if old(KEY in self._pool_ref_store._active_methods) else 1)".replace("KEY", repr(key)),
+            starts_from_current_working_set="implies(factory.n_made == 1,"
+                                            " factory.given_working is self._pool_ref_store._working_batteries)",
+        )
+    return _C
+
+
+PoolSoc = pool_metric_contract("soc", SOC_KEY, "SoCCalculator")
+PoolCapacity = pool_metric_contract("capacity", CAP_KEY, "CapacityCalculator")
